@@ -19,6 +19,8 @@ Variants ==
   \cup {[diagram |-> "timeseries", argv |-> <<"-m", "timeseries">>, m |-> "", axis |-> "no"]}
   \cup {[diagram |-> "error", argv |-> <<"-m", "error">>, m |-> "", axis |-> "no"]}          \* (the error diagram takes no -x: one point per input)
   \cup {[diagram |-> "performance", argv |-> <<"-m", "performance", "-x", a, "-r", "2", "-simple">>, m |-> "", axis |-> a] : a \in {"leadtime", "location"}}
+  \cup {[diagram |-> "map", argv |-> <<"-m", m, "-type", "map">>, m |-> m, axis |-> "location"] : m \in {"mae", "corr"}}
+  \cup {[diagram |-> "impact", argv |-> <<"-m", "mae", "-type", "impact", "-r", "-1,1,3,5">>, m |-> "mae", axis |-> "no"]}
   \* third tranche
   \cup {[diagram |-> x, argv |-> <<"-m", x, "-r", "2", "-b", b>>, m |-> "", axis |-> b] : x \in {"droc", "droc0"}, b \in {"above", "below="}}
   \cup {[diagram |-> "change", argv |-> <<"-m", "change", "-r", "-3,-1,0,1,3">>, m |-> "", axis |-> "no"]}
@@ -26,12 +28,18 @@ Variants ==
   \cup {[diagram |-> "taylor", argv |-> <<"-m", "taylor">>, m |-> "", axis |-> "no"], [diagram |-> "taylor", argv |-> <<"-m", "taylor", "-x", "leadtime">>, m |-> "", axis |-> "leadtime"]}
   \cup {[diagram |-> "fss", argv |-> <<"-m", "fss", "-x", "leadtime", "-r", "2", "-b", b>>, m |-> "", axis |-> b] : b \in {"above", "below="}}
 ExprSeqJ(s) == s
-SeriesJ(ss) == [k \in DOMAIN ss |-> [label |-> ss[k].label, x |-> ss[k].x, y |-> ss[k].y]]
+SeriesJ(ss) == [k \in DOMAIN ss |-> IF "c" \in DOMAIN ss[k] THEN ss[k] ELSE [label |-> ss[k].label, x |-> ss[k].x, y |-> ss[k].y]]
 SeriesOf(X, v) ==
   CASE v.diagram = "standard" -> StandardSeries(X, v.m, v.axis, Cfg0)
     [] v.diagram = "standard-avg" ->      \* several thresholds on a data axis: the drawn score is the mean over the events
          LET T == AveragedTable(Ds, X, v.m, v.axis, "within", ThsA, <<>>) IN
          [i \in 1..X.n |-> Series(InputLabel(i), [k \in 1..NumSlices(X, v.axis) |-> Q(AxisX(X, v.axis, k))], [k \in 1..NumSlices(X, v.axis) |-> T.rows[k].scores[i]])]
+    \* map view: one panel per input (titled with the input's name); a point at (lon, lat) of every location whose score exists, coloured by the score
+    [] v.diagram = "map" ->
+         LET ids == SliceKeys(X, "location") IN
+         [i \in 1..X.n |-> [label |-> InputLabel(i), x |-> [k \in DOMAIN ids |-> Q(R(MetaLon(Ds, ids[k])))], y |-> [k \in DOMAIN ids |-> Q(R(MetaLat(Ds, ids[k])))],
+                            c |-> [k \in DOMAIN ids |-> Score(X, v.m, i, "location", k, Cfg0)]]]
+    [] v.diagram = "impact" -> ImpactSeries(X, <<R(-1), R(1), R(3), R(5)>>)
     [] v.diagram = "obsfcst" -> ObsFcstSeries(X, v.axis)
     [] v.diagram = "qq" -> QQSeries(X)
     [] v.diagram = "scatter" -> ScatterSeries(X)
@@ -54,14 +62,14 @@ Usable(x) == ~EmptySelection(DsOfSmall(x), x.opt)
 Emit == LET X == Context(Ds, gen.opt) IN
         PrintT(ToJson([inputs |-> [j \in DOMAIN Ds.inputs |-> InputJson(Ds.inputs[j])], hasClim |-> FALSE, clim |-> InputJson(Ds.clim), climType |-> "subtract",
                        opts |-> OptJson(gen.opt), diagram |-> d.diagram, argv |-> d.argv, axis |-> d.axis,
-                       unordered |-> d.diagram \in {"scatter", "against"}, bars |-> (d.diagram = "standard" /\ d.axis = "no"),
+                       unordered |-> d.diagram \in {"scatter", "against", "impact"}, bars |-> (d.diagram = "standard" /\ d.axis = "no"),
                        series |-> SeriesJ(SeriesOf(X, d))]))
 Init == gen \in {x \in Universe(0) : Usable(x)} /\ d \in Variants /\ phase = "case"
 Evaluate == phase = "case" /\ phase' = "emitted" /\ UNCHANGED <<gen, d>> /\ Emit
 Next == Evaluate
 Spec == Init /\ [][Next]_vars
 InvOneSeriesPerInput == LET X == Context(Ds, gen.opt) IN
-   OneSeriesPerInput(SeriesOf(X, d), IF d.diagram = "against" THEN 0 ELSE IF d.diagram = "cond" THEN 2 * X.n ELSE IF d.diagram = "timeseries" THEN X.n * Len(X.T) ELSE X.n,
+   OneSeriesPerInput(SeriesOf(X, d), IF d.diagram = "against" THEN 0 ELSE IF d.diagram = "impact" THEN Len(SeriesOf(X, d)) ELSE IF d.diagram = "cond" THEN 2 * X.n ELSE IF d.diagram = "timeseries" THEN X.n * Len(X.T) ELSE X.n,
                      IF d.diagram \in {"obsfcst", "freq", "against"} THEN 1 ELSE 0)
 InvBins == LET X == Context(Ds, gen.opt) IN d.diagram = "hist" => \A i \in 1..X.n : EveryValueInOneBin(ValuesOf(X, i, d.m, "no", 1), d.axis, ThsA)
 =============================================================================
